@@ -14,7 +14,7 @@ if ! (cd "$ROOT/fuzz" && flock "$ROOT/target/.fuzzbuild.lock" cargo +nightly fuz
 fi
 BIN="$ROOT/fuzz/target/x86_64-unknown-linux-gnu/release/$TARGET"
 [ -x "$BIN" ] || { echo "fuzz binary missing" >&2; exit 2; }
-before="$(ls "$ROOT"/replays/*.json 2>/dev/null | sort)"
+before="$(ls "$ROOT"/replays/$ID-*.json 2>/dev/null | sort)"
 W="$ROOT/work/fuzz-$TARGET"; rm -rf "$W"; mkdir -p "$W"
 pids=()
 for i in $(seq 1 "$WORKERS"); do
@@ -29,7 +29,7 @@ for p in "${pids[@]}"; do wait "$p" || crashed=$((crashed + 1)); done
 runs=$(grep -h "stat::number_of_executed_units" "$W"/log*.txt | awk '{s+=$2} END {print s+0}')
 cov=$(grep -h "cov: " "$W"/log*.txt | sed -E 's/.*cov: ([0-9]+).*/\1/' | sort -n | tail -1)
 corp=$(find "$W" -path "*corpus*" -type f | wc -l)
-after="$(ls "$ROOT"/replays/*.json 2>/dev/null | sort)"
+after="$(ls "$ROOT"/replays/$ID-*.json 2>/dev/null | sort)"
 new="$(comm -13 <(echo "$before") <(echo "$after") | paste -sd: -)"
 # a worker that died without the oracle writing a replay (timeout / OOM / crash inside linfa before the oracle ran)
 unexplained=0
